@@ -1,6 +1,7 @@
 (** C05 — the result depends only on the catalogue (year), the set of requested forms/fields and the input values. *)
 From Coq Require Import ZArith NArith List Bool.
 From HV Require Import Solver RunLemmas SolverDem SolverPrompt SolverUnique SolverExamples.
+From HV Require Forms StoreMono.
 Import ListNotations.
 
 (* Two finished runs of the same catalogue may differ in: the attempt order (rank1 / rank2 are arbitrary), the order and
@@ -56,3 +57,12 @@ Goal True. idtac "@@PA C05_prompt_equals_file". Abort.
 Print Assumptions C05_prompt_equals_file.
 Goal True. idtac "@@PA C05_scheduled_set_is_declarative". Abort.
 Print Assumptions C05_scheduled_set_is_declarative.
+
+(* Layer B (the regenerated line bodies): the outcome of evaluating a line - its value, a refusal, a crash, or the NAME it waits for - depends
+   only on what each name is bound to in the stores, not on the order of the entries, shadowed duplicates, or the order of the forms *)
+Theorem C05_line_outcome_ignores_store_layout :
+  forall (c c':Forms.ctx) fuel (l:Forms.line), StoreMono.ctx_eqv c c' -> Forms.line_value c' fuel l = Forms.line_value c fuel l.
+Proof. exact StoreMono.line_value_ext. Qed.
+
+Goal True. idtac "@@PA C05_line_outcome_ignores_store_layout". Abort.
+Print Assumptions C05_line_outcome_ignores_store_layout.
